@@ -68,21 +68,6 @@ func genC16(t *rapid.T) *C16Case {
 
 	c.Region = rapid.IntRange(-6, 6).Draw(t, "region")
 
-	// Known finding "multibyte-word": the word tokenizers mix byte and rune
-	// offsets, so word-based kills act on the wrong range in multi-byte text.
-	// Excluded by construction: word kills only get ASCII buffers.
-	for _, k := range c.Kills {
-		if c16WordKill(k.Cmd) || c16WordKill(k.Motion) {
-			c.Text = strings.Map(func(r rune) rune {
-				if r >= 0x80 {
-					return 'u'
-				}
-
-				return r
-			}, c.Text)
-		}
-	}
-
 	return c
 }
 
@@ -336,9 +321,6 @@ func runC16(h *Harness, child *rig.Child, c *C16Case) (f *Failure, nontrivial bo
 
 			if y.Line != before.Line {
 				sig := "c16:" + k.Cmd + ":restore"
-				if c16WordKill(k.Cmd) && hasNonASCII(before.Line) {
-					sig = "c16:multibyte-word"
-				}
 
 				return failf("restore", sig, "%s (count %d) at %d then yank: %q -> %q -> %q (register %q)", k.Cmd, k.Count, before.Pos, before.Line, after.Line, y.Line, after.Kill), true
 			}
